@@ -7,6 +7,13 @@ From V.Proofs Require Import ThreadsProofs.
 Lemma src_working_set_is_thread_local : src_thread_local = true.
 Proof. reflexivity. Qed.
 
+(* tie obligation: EVERY hook generator (attrs / dataclass, TypedDict and NamedTuple, both directions) adds its class to the working
+   set, refuses re-entry and removes it in a finally -- the model's [enter] / [mem_N c (eff_ws s t)] steps are what every generator
+   does.  (Finding F36: the TypedDict structure generator had no guard; a cycle that only it could cut ran to the interpreter's
+   recursion limit, near which the dispatcher chooses and caches wrong hooks.) *)
+Lemma src_every_generator_is_guarded : src_all_generators_guarded = true.
+Proof. reflexivity. Qed.
+
 (* For the scope read off the current source: ANY number of threads, ANY class graph (deep,
    recursive, overlapping, with references through caching and non-caching lookups), ANY lists
    of first-use requests and EVERY schedule (interleaving at the granularity "one field resolved /
